@@ -757,15 +757,17 @@ class SymExec:
         # no closure-typed generics
         return True
 
-    def const_loop_fn(self, name):
+    def const_loop_fn(self, name, n=2):
         cache = self.facts.__dict__.setdefault("_const_loop_fn", {})
+        name0, name = name, (name, n)
         if name not in cache:
             cache[name] = False          # (recursion guard)
-            b = self.facts.bodies[name]
+            name_ = name0
+            b = self.facts.bodies[name_]
             ok = False
             if not any("&mut" in b.locals[i]["ty"] for i in range(1, b.argc + 1)):
                 try:
-                    sub = SymExec(self.facts, b, max_paths=64, max_depth=2, unroll_const=8, opaque=self.opaque_pred)
+                    sub = SymExec(self.facts, b, max_paths=64, max_depth=2, unroll_const=n, opaque=self.opaque_pred)
                     ps = sub.run()
                     ok = bool(ps) and all(p.end == "return" and not p.pre_loop for p in ps)
                 except Exception:
@@ -787,7 +789,7 @@ class SymExec:
         st.nhv = 0
         st.pre_loop = {}
         f = Frame(self.body, 0, self.cgen, self.tgen)
-        if self.auto_unroll and not self.unroll and not self.unroll_const and self.loops_of(self.body)[0] and self.const_loop_fn(self.body.key):
+        if self.auto_unroll and not self.unroll and not self.unroll_const and self.loops_of(self.body)[0] and self.const_loop_fn(self.body.key, 8):
             f.uc = 8
         st.frames = [f]
         b = self.body
@@ -1636,7 +1638,7 @@ class SymExec:
                 body = self.facts.bodies[name]
                 nf = Frame(body, st.nfid, self.sub_cgen(fr, body, targs), self.sub_tgen(fr, body, targs))
                 if not self.unroll and self.loops_of(body)[0] and self.const_loop_fn(name):
-                    nf.uc = 8            # a constant-array loop, executed element by element
+                    nf.uc = 2            # a constant-array loop, executed element by element
                 st.nfid += 1
                 nf.ret_dest = t["dest"]
                 nf.ret_target = t["t"]
